@@ -46,6 +46,17 @@ def fullConvAt (x psf : List Rat) (t : Nat) : Rat :=
 def fullConv (x psf : List Rat) : List Rat :=
   (List.range (x.length + psf.length - 1)).map (fullConvAt x psf)
 
+/-- specification of the whole pad-mode result, edges included: entry `k` is the ordinary convolution of the
+kernel with the signal continued by its first / last sample (`np.pad(mode="edge")`), i.e. with the index clamped
+into `0 .. n − 1`:  `Σ_j psf[j] · x[clamp(k + (m − 1 − m/2) − j)]` -/
+def clampIdx (n : Nat) (i : Int) : Nat := if i < 0 then 0 else if (n : Int) ≤ i then n - 1 else i.toNat
+
+def padConvAt (x psf : List Rat) (k : Nat) : Rat :=
+  ((List.range psf.length).map (fun j =>
+    at0 psf j * at0 x (clampIdx x.length ((k : Int) + ((psf.length - 1 - psf.length / 2 : Nat) : Int) - (j : Int))))).sum
+
+def padConvSpec (x psf : List Rat) : List Rat := (List.range x.length).map (padConvAt x psf)
+
 /-! ## deconvolution -/
 
 /-- first `r` coefficients of the power-series quotient `c / psf` — what
@@ -94,10 +105,19 @@ def linspace (a b : Rat) (n : Nat) : List Rat :=
     if 1 < n ∧ i + 1 = n then b else a + (i : Rat) * ((b - a) / ((n : Rat) - 1)))
 
 /-- `y / y.sum()` -/
-def normalise (y : List Rat) : List Rat := y.map (· / y.sum)
+def normalise (y : List Rat) : List Rat :=
+  let s := y.sum      -- formed once, as in the code
+  y.map (· / s)
 
 /-- `y / y.sum()` for values in any type with `+`, `0`, `/` (the real-valued densities) -/
-def normaliseK {K : Type} [Add K] [Zero K] [Div K] (y : List K) : List K := y.map (· / y.sum)
+def normaliseK {K : Type} [Add K] [Zero K] [Div K] (y : List K) : List K :=
+  let s := y.sum
+  y.map (· / s)
+
+/-- REGRESSION mechanism (seeded change C18-c2, not the code): `y / max(y.sum(), t)` — the divisor floored at a
+positive constant `t` (`np.finfo(float).tiny`) "so that an all-zero density does not divide by zero".  Unlike
+`normalise` it is not invariant under a change of the magnitude of the densities (`normaliseFloor_sum`). -/
+def normaliseFloor (t : Rat) (y : List Rat) : List Rat := y.map (· / (if y.sum < t then t else y.sum))
 
 /-- `np.stack((x, w), axis=1)`: one row `[x_i, w_i]` per axis point -/
 def stackCols {K : Type} (x : List Rat) (w : List K) : List (Rat × K) := x.zip w
@@ -287,5 +307,57 @@ def superGaussian (size : Nat) (sigma mu : Rat) (power : Nat) (scale shift : Rat
   generatorWith .sym (superGaussianPdf S sigma mu power) size scale shift
 
 end generators
+
+/-! ## the factors of the eight densities, and when a double-precision evaluation is trusted to be positive
+
+Each density is a product of a few factors (`*_factors_prod`, `PewTheorems/C18.lean`).  A floating-point evaluation
+multiplies them in some order; every intermediate value is the product of a sub-collection of the factors
+(`subProducts`).  `robustFactors`: every such product lies between 8 steps of the subnormal grid and 2¹⁰⁰⁰ — then no
+order of multiplication underflows to 0 or overflows, and the sampled density is a positive double however small
+(normal or SUBNORMAL).  This is how the check decides "the float sum of the densities is positive" for kernels in
+the far tail without looking at the implementation's intermediate values. -/
+
+section factors
+variable {K : Type} [Add K] [Sub K] [Mul K] [Div K] [Neg K] (S : Special K)
+
+def exponentialFactors (lam x : Rat) : List K := [S.ofRat lam, S.exp (S.ofRat (-lam * x))]
+def laplaceFactors (b mu x : Rat) : List K := [S.ofRat (1 / (2 * b)), S.exp (S.ofRat (-absR (x - mu) / b))]
+def normalFactors (sigma mu x : Rat) : List K :=
+  [S.ofRat 1 / (S.ofRat sigma * S.s2pi), S.exp (S.ofRat (-(1 / 2) * ((x - mu) / sigma) ^ 2))]
+def superGaussianFactors (sigma mu : Rat) (power : Nat) (x : Rat) : List K :=
+  [S.ofRat 1 / (S.ofRat sigma * S.s2pi), S.exp (S.ofRat (-(1 / 2) * ((x - mu) / sigma) ^ (2 * power)))]
+def lognormalFactors (sigma mu x : Rat) : List K :=
+  let t := (S.log (S.ofRat x) - S.ofRat mu) / S.ofRat sigma
+  [S.ofRat 1 / (S.ofRat (x * sigma) * S.s2pi), S.exp (-(S.ofRat (1 / 2)) * (t * t))]
+def loglaplaceFactors (b mu x : Rat) : List K :=
+  [S.ofRat (1 / (2 * b * x)), S.exp (-(S.abs (S.log (S.ofRat x) - S.ofRat mu)) / S.ofRat b)]
+/-- `beta**alpha / gamma(alpha)`, `x ** (-alpha - 1)`, `exp(-beta / x)`: the three multiplicands of the code -/
+def inversegammaFactors (alpha beta x : Rat) : List K :=
+  [S.rpow (S.ofRat beta) (S.ofRat alpha) / S.ofRat (gammaApprox alpha),
+   S.rpow (S.ofRat x) (S.ofRat (-alpha - 1)), S.exp (S.ofRat (-beta / x))]
+/-- `x ** (alpha - 1)`, `(1 - x) ** (beta - 1)`, `1 / B`: the multiplicands of the code (the division by `B` as a
+multiplication by its reciprocal) -/
+def betaFactors (alpha beta x : Rat) : List K :=
+  [S.rpow (S.ofRat x) (S.ofRat (alpha - 1)), S.rpow (S.ofRat (1 - x)) (S.ofRat (beta - 1)),
+   S.ofRat 1 / S.ofRat (gammaApprox alpha * gammaApprox beta / gammaApprox (alpha + beta))]
+
+end factors
+
+/-- the products of all sub-collections of a list of factors (the empty product 1 included) -/
+def subProducts : List Rat → List Rat
+  | [] => [1]
+  | f :: fs => subProducts fs ++ (subProducts fs).map (f * ·)
+
+/-- 8 steps of the subnormal grid of binary64 (`2⁻¹⁰⁷⁴` is the smallest positive double; a product of at most four
+factors is off by at most four steps there, one per rounding) -/
+def tailLo : Rat := 8 / 2 ^ 1074
+/-- `2¹⁰⁰⁰`, a factor `2²⁴` below the overflow threshold of binary64 -/
+def tailHi : Rat := 2 ^ 1000
+
+/-- every product of a sub-collection of the factors is a positive double with room to spare -/
+def robustFactors (fs : List Rat) : Bool := (subProducts fs).all (fun p => decide (tailLo ≤ p) && decide (p ≤ tailHi))
+
+/-- some product of a sub-collection of the factors is (in magnitude) above `2¹⁰⁰⁰` -/
+def overflowFactors (fs : List Rat) : Bool := (subProducts fs).any (fun p => decide (tailHi < absR p))
 
 end Pew.Convolve
